@@ -814,7 +814,7 @@ def main(tier):
     import sys as _sys
     from .common import VERIF
     tests = "test_core.py test_maps.py" if tier == 'quick' else \
-        "test_core.py test_maps.py test_fields.py test_models.py"
+        "test_core.py test_maps.py test_models.py"
     env = dict(os.environ, SHADOW_TESTS=tests,
                PYTHONPATH=VERIF+os.pathsep+os.environ.get('PYTHONPATH', ''))
     try:
